@@ -1,0 +1,47 @@
+// Verification hooks (compiled in only with -DNINJA_VERIF): named crash points placed between
+// persistence steps. With the guard off this header defines an empty macro.
+//
+//   VERIF_CRASH_POINT=name:N      _exit(77) on the N-th hit of crash point `name`
+//   VERIF_CRASH_POINT=count:FILE  append "name\n" to FILE at every hit (enumeration pass)
+#ifndef NINJA_VERIF_HOOKS_H_
+#define NINJA_VERIF_HOOKS_H_
+
+#ifdef NINJA_VERIF
+#include <stdio.h>
+#include <stdlib.h>
+#include <string.h>
+#include <unistd.h>
+
+#include <map>
+#include <string>
+
+inline void VerifCrashPoint(const char* name) {
+  static const char* spec = getenv("VERIF_CRASH_POINT");
+  if (!spec)
+    return;
+  if (!strncmp(spec, "count:", 6)) {
+    FILE* f = fopen(spec + 6, "a");
+    if (f) {
+      fprintf(f, "%s\n", name);
+      fclose(f);
+    }
+    return;
+  }
+  const char* colon = strrchr(spec, ':');
+  if (!colon)
+    return;
+  size_t len = colon - spec;
+  if (strlen(name) != len || strncmp(spec, name, len))
+    return;
+  static std::map<std::string, int> hits;
+  if (++hits[name] == atoi(colon + 1)) {
+    fflush(stdout);
+    _exit(77);
+  }
+}
+#define VERIF_CRASH_POINT(name) VerifCrashPoint(name)
+#else
+#define VERIF_CRASH_POINT(name) ((void)0)
+#endif
+
+#endif  // NINJA_VERIF_HOOKS_H_
